@@ -415,7 +415,7 @@ Exec(t) ==
          Nth(i) == Cardinality({j \in written : j <= i})
          nws == [p \in (DOMAIN ws) \cup {r.tg[i] : i \in written} |->
                    IF \E i \in written : r.tg[i] = p
-                   THEN LET i == IdxOf(r.tg, p) IN [c |-> Out(r, i, sc, env), m |-> Stamp(Nth(i)), x |-> r.x]
+                   THEN LET i == IdxOf(r.tg, p) IN [c |-> Out(r, i, sc, env), m |-> Stamp(Nth(i)), x |-> r.x \/ (Has(ws, p) /\ ws[p].x)]   \* truncating keeps the mode
                    ELSE ws[p]]
          outs == [i \in DOMAIN r.tg |-> IF Has(nws, r.tg[i]) THEN nws[r.tg[i]].c ELSE "MISSING"]
          missing == {i \in DOMAIN r.tg : ~Has(nws, r.tg[i])}
